@@ -929,6 +929,8 @@ pub fn to_vec_custom(value: &Value, options: Options) -> io::Result<Vec<u8>> {
 #[inline]
 pub fn to_string(value: &Value) -> io::Result<String> {
     let vec = to_vec(value)?;
+    #[cfg(lexpr_verif)]
+    crate::parse::verif::utf8_check(&vec);
     let string = unsafe {
         // We do not emit invalid UTF-8.
         String::from_utf8_unchecked(vec)
@@ -940,6 +942,8 @@ pub fn to_string(value: &Value) -> io::Result<String> {
 #[inline]
 pub fn to_string_custom(value: &Value, options: Options) -> io::Result<String> {
     let vec = to_vec_custom(value, options)?;
+    #[cfg(lexpr_verif)]
+    crate::parse::verif::utf8_check(&vec);
     let string = unsafe {
         // We do not emit invalid UTF-8.
         String::from_utf8_unchecked(vec)
